@@ -46,7 +46,7 @@ def handle (c : Json) : Json :=
   mkObj [("caller", jStr (callerStr r.caller)), ("ran", jBool r.bodyRan),
          ("fwdPos", jArr (r.fwdPos.map jNat)), ("fwdKw", jArr (r.fwdKw.map jNat)),
          ("spec", mkObj [("truthful", jBool (truthful f t)), ("anyNonConforming", jBool (anyNonConforming env f args kw)),
-                         ("badProduced", jBool (badProduced env f body)), ("positionalBad", jBool (positionalBad env f t args)), ("positionalPrefixBad", jBool (positionalPrefixBad env f t args kw)), ("allConforming", jBool (allConforming env f args kw body)),
+                         ("badProduced", jBool (badProduced env f body)), ("positionalBad", jBool (positionalBad env f t args)), ("positionalPrefixBad", jBool (positionalPrefixBad env f t args kw)), ("badStarSpec", jBool (badStarSpec env f t args)), ("allConforming", jBool (allConforming env f args kw body)),
                          ("incompleteParam", jBool (incompleteParam f)), ("incompleteReturn", jBool (incompleteReturn f)),
                          ("keywordCall", jBool (keywordCall t args)), ("exempt", jBool (exempt f t)), ("hasVarPos", jBool (hasVarPos f)),
                          ("pythonBinds", jBool (f.binds (fwdPosOf f args).length (kw.map (·.1))))]),
